@@ -12,6 +12,9 @@ theorem tie_h_defs__exists : Extracted.Defs.h_defs__exists = Canon.Defs.h_defs__
 theorem tie_h_defs__writeFileAtomic : Extracted.Defs.h_defs__writeFileAtomic = Canon.Defs.h_defs__writeFileAtomic := by decide +kernel
 theorem tie_h_defs_dagStoreImpl_ensureDirExist : Extracted.Defs.h_defs_dagStoreImpl_ensureDirExist = Canon.Defs.h_defs_dagStoreImpl_ensureDirExist := by decide +kernel
 theorem tie_h_defs__checkExtension : Extracted.Defs.h_defs__checkExtension = Canon.Defs.h_defs__checkExtension := by decide +kernel
+theorem tie_h_defs_AddYamlExtension : Extracted.Defs.h_defs_AddYamlExtension = Canon.Defs.h_defs_AddYamlExtension := by decide +kernel
+theorem tie_h_defs__find : Extracted.Defs.h_defs__find = Canon.Defs.h_defs__find := by decide +kernel
+theorem tie_h_defs_dagStoreImpl_resolve : Extracted.Defs.h_defs_dagStoreImpl_resolve = Canon.Defs.h_defs_dagStoreImpl_resolve := by decide +kernel
 theorem tie_h_defs_client_CreateDAG : Extracted.Defs.h_defs_client_CreateDAG = Canon.Defs.h_defs_client_CreateDAG := by decide +kernel
 theorem tie_h_defs_client_Rename : Extracted.Defs.h_defs_client_Rename = Canon.Defs.h_defs_client_Rename := by decide +kernel
 theorem tie_h_defs_client_UpdateDAG : Extracted.Defs.h_defs_client_UpdateDAG = Canon.Defs.h_defs_client_UpdateDAG := by decide +kernel
@@ -29,6 +32,9 @@ theorem tie_h_rest_defs_frontend_dag_handler_go : Extracted.Defs.h_rest_defs_fro
 #print axioms tie_h_defs__writeFileAtomic
 #print axioms tie_h_defs_dagStoreImpl_ensureDirExist
 #print axioms tie_h_defs__checkExtension
+#print axioms tie_h_defs_AddYamlExtension
+#print axioms tie_h_defs__find
+#print axioms tie_h_defs_dagStoreImpl_resolve
 #print axioms tie_h_defs_client_CreateDAG
 #print axioms tie_h_defs_client_Rename
 #print axioms tie_h_defs_client_UpdateDAG
